@@ -16,6 +16,9 @@ CHECKS = {
     'C07': {'engine': 'history',
             'quick': {'runs': 1200, 'len_range': (6, 30)},
             'thorough': {'runs': 30000, 'len_range': (8, 50)}},
+    'C19': {'engine': 'history',
+            'quick': {'runs': 1600, 'len_range': (6, 30)},
+            'thorough': {'runs': 40000, 'len_range': (8, 50)}},
 }
 
 
